@@ -445,11 +445,70 @@ def func_key(group, ex):
     return group
 
 
+def _keyword_variant(ex):
+    """the same call with every argument after the first spelled as a keyword (where the NumPy signature allows it);
+    None when the template is not a single np.* call, has fewer than two positional arguments, or the signature is unknown.
+    Handlers that pick their arguments apart by hand must treat both spellings alike."""
+    import ast
+    import inspect
+
+    try:
+        tree = ast.parse(ex, mode="eval").body
+    except SyntaxError:
+        return None
+    if not isinstance(tree, ast.Call) or len(tree.args) < 2 or any(isinstance(a_, ast.Starred) for a_ in tree.args):
+        return None
+    parts = []
+    f = tree.func
+    while isinstance(f, ast.Attribute):
+        parts.append(f.attr)
+        f = f.value
+    if not (isinstance(f, ast.Name) and f.id == "np"):
+        return None
+    obj = np
+    for nm in reversed(parts):
+        obj = getattr(obj, nm, None)
+        if obj is None:
+            return None
+    if isinstance(obj, np.ufunc):
+        return None
+    try:
+        params = list(inspect.signature(obj).parameters.values())
+    except (TypeError, ValueError):
+        return None
+    given = {k.arg for k in tree.keywords}
+    new_kw = []
+    keep = [tree.args[0]]
+    for a_, prm in zip(tree.args[1:], params[1:]):
+        if prm.kind is not inspect.Parameter.POSITIONAL_OR_KEYWORD or prm.name in given or new_kw is None:
+            return None  # positional-only / *args: leave the template alone
+        new_kw.append(ast.keyword(arg=prm.name, value=a_))
+    if len(tree.args) - 1 > len(params) - 1 or not new_kw:
+        return None
+    call = ast.Call(func=tree.func, args=keep, keywords=new_kw + tree.keywords)
+    return ast.unparse(ast.fix_missing_locations(ast.Expression(body=call)))
+
+
+_KW_CACHE = {}
+
+
 def all_templates():
     out = []
+    seen = set()
     for fn, tl in CATALOG.items():
         for t in tl:
-            out.append((func_key(fn, expr(t)), expr(t), frozenset(f.strip() for f in flags(t))))
+            ex = expr(t)
+            fl = frozenset(f.strip() for f in flags(t))
+            out.append((func_key(fn, ex), ex, fl))
+            seen.add(ex.replace(" ", ""))
+    # derived: keyword spellings of the positional templates
+    for key, ex, fl in list(out):
+        if ex not in _KW_CACHE:
+            _KW_CACHE[ex] = _keyword_variant(ex)
+        kv = _KW_CACHE[ex]
+        if kv and kv.replace(" ", "") not in seen:
+            seen.add(kv.replace(" ", ""))
+            out.append((key, kv, fl))
     return out
 
 
